@@ -481,18 +481,18 @@ def run(check):
             r = impl_loads(um, p)
             if r != ('err', 'InsufficientDataException'):
                 check.fail('proper prefix of an encoding not rejected as insufficient data',
-                           {'value': short(v), 'prefix_hex': p.hex()[:4000], 'got': short(r)})
+                           {'kind': 'prefix', 'value': short(v), 'prefix_hex': p.hex()[:4000], 'got': short(r)})
     for j, e in nonmin:
         r = impl_loads(um, e)
         if r != ('ok', canon(norm_json(j))):
             check.fail('spec-valid (non-minimal) encoding not decoded to its value',
-                       {'value': short(j), 'bytes_hex': e.hex()[:4000], 'got': short(r)})
+                       {'kind': 'stream', 'value': short(j), 'value_json': small_json(j), 'bytes_hex': e.hex()[:4000], 'got': short(r)})
         for c in sorted(set([0, len(e) // 2, len(e) - 1])):
             if 0 <= c < len(e):
                 r = impl_loads(um, e[:c])
                 if r != ('err', 'InsufficientDataException'):
                     check.fail('proper prefix of a spec-valid encoding not rejected as insufficient data',
-                               {'value': short(j), 'prefix_hex': e[:c].hex()[:4000], 'got': short(r)})
+                               {'kind': 'prefix', 'value': short(j), 'prefix_hex': e[:c].hex()[:4000], 'got': short(r)})
 
     check.cov['evaluations'] = len(values) + len(all_streams)
     check.cov['distinct_nontrivial'] = len(set(bs for _, bs, wf in encodings if wf and len(bs) > 1)) + \
@@ -526,17 +526,17 @@ def oracle_value(check, um, v, impl):
     dm = data_model(v, um)
     if isinstance(v, int) and not isinstance(v, bool) and not (-2 ** 63 <= v < 2 ** 64):
         if impl != ('err', 'UnsupportedTypeException'):
-            check.fail('out-of-range integer not refused', {'value': str(v), 'got': short(impl)})
+            check.fail('out-of-range integer not refused', {'kind': 'value', 'value': str(v), 'value_json': {'i': str(v)}, 'got': short(impl)})
         return
     if not dm:
         return
     if impl[0] != 'ok':
-        check.fail('data-model value not encodable', {'value': short(v), 'got': short(impl)})
+        check.fail('data-model value not encodable', {'kind': 'value', 'value': short(v), 'value_json': small_json(j), 'got': short(impl)})
         return
     bs = bytes.fromhex(impl[1])
     back = impl_loads(um, bs)
     if back != ('ok', canon(norm_json(j))):
-        check.fail('round trip loads(dumps(v)) != v', {'value': short(v), 'bytes_hex': bs.hex()[:4000], 'got': short(back)})
+        check.fail('round trip loads(dumps(v)) != v', {'kind': 'value', 'value': short(v), 'value_json': small_json(j), 'bytes_hex': bs.hex()[:4000], 'got': short(back)})
     try:
         ref, pos = ref_decode(bs)
         ok = pos == len(bs) and canon(ref) == canon(norm_json(j))
@@ -545,7 +545,7 @@ def oracle_value(check, um, v, impl):
         ref = repr(e)
     if not ok:
         check.fail('encoding is not valid MessagePack for the value (independent decoder disagrees)',
-                   {'value': short(v), 'bytes_hex': bs.hex()[:4000], 'reference_decoder': short(ref)})
+                   {'kind': 'value', 'value': short(v), 'value_json': small_json(j), 'bytes_hex': bs.hex()[:4000], 'reference_decoder': short(ref)})
 
 
 def data_model(v, um, key=False):
@@ -575,3 +575,61 @@ def data_model(v, um, key=False):
 def short(x, n=300):
     s = repr(x)
     return s if len(s) <= n else s[:n] + '...(%d chars)' % len(s)
+
+
+def small_json(j):
+    s = json.dumps(j)
+    return j if len(s) < 20000 else None
+
+
+def from_json(j, um, key=False):
+    if j is None or j is True or j is False:
+        return j
+    if 'i' in j:
+        return int(j['i'])
+    if 'f' in j:
+        return struct.unpack('>d', int(j['f']).to_bytes(8, 'big'))[0]
+    if 's' in j:
+        return bytes.fromhex(j['s']).decode('utf-8')
+    if 'b' in j:
+        return bytes.fromhex(j['b'])
+    if 'a' in j:
+        return [from_json(x, um) for x in j['a']]
+    if 't' in j:
+        return tuple(from_json(x, um, key) for x in j['t'])
+    if 'm' in j:
+        return {from_json(k, um, True): from_json(x, um) for k, x in j['m']}
+    if 'e' in j:
+        return um.Ext(int(j['e'][0]), bytes.fromhex(j['e'][1]))
+    return Opaque()
+
+
+def replay(path):
+    data = json.load(open(path))
+    for k in [k for k in sys.modules if k == 'supp' or k.startswith('supp.')]:
+        del sys.modules[k]
+    sys.path.insert(0, REPO)
+    import supp.umsgpack as um
+    bad = 0
+    for item in data.get('failing_inputs', []):
+        r = item['replay']
+        kind = r.get('kind')
+        if kind == 'prefix':
+            got = impl_loads(um, bytes.fromhex(r['prefix_hex']))
+            ok = got == ('err', 'InsufficientDataException')
+        elif kind == 'stream' and r.get('value_json') is not None:
+            got = impl_loads(um, bytes.fromhex(r['bytes_hex']))
+            ok = got == ('ok', canon(norm_json(r['value_json'])))
+        elif kind == 'value' and r.get('value_json') is not None:
+            v = from_json(r['value_json'], um)
+            chk = common.Check('C14', 'quick', 0)
+            oracle_value(chk, um, v, impl_dumps(um, v))
+            got = [f['what'] for f in chk.failures]
+            ok = not got
+        else:
+            print('not replayable (value too large to record):', item['what'])
+            continue
+        print(('passes now: ' if ok else 'STILL FAILS: ') + item['what'], '' if ok else short(got))
+        bad += not ok
+    print('REPLAY: %d of the recorded inputs still fail' % bad)
+    return 1 if bad else 0
